@@ -7,7 +7,7 @@
    correspondence of C06 / C12 / C14, repeated here on relabelled networks. *)
 From Coq Require Import String ZArith List Bool Permutation.
 From XV Require Import Base.Label Base.LSet Base.ODict Base.Attr Base.Outcome Model.Hypergraph Model.Stats Model.Hodge
-  Model.Matrix Model.Graph Model.Rename Proofs.HgViews Proofs.RenameProofs Proofs.RenameMore.
+  Model.Matrix Model.Graph Model.Rename Proofs.HgViews Proofs.RenameProofs Proofs.RenameMore Proofs.HgInv Proofs.GraphProofs Proofs.MemberOrder.
 Import ListNotations.
 Open Scope Z_scope.
 
@@ -103,3 +103,20 @@ Example C09_nonvacuous :
   dist (rename_hg fn fe s) (LStr "a") (LInt 7) = Some 2.
 Proof. vm_compute. split; reflexivity. Qed.
 Print Assumptions C09_nonvacuous.
+
+(* member order: the order in which Python happens to iterate a member or membership set is invisible - two states
+   with the same keys whose stored lists are equal as sets have the same degrees, sizes, neighbourhoods,
+   reachability, components (as sets) and distances *)
+Theorem C09_member_order : forall s s', Inv s -> Inv s' -> SameSets s s' ->
+  (forall n, degree None None s' n = degree None None s n) /\
+  (forall e, edge_size None s' e = edge_size None s e) /\
+  (forall a b, In b (nbrs s' a) <-> In b (nbrs s a)) /\
+  (forall a b, Reach s' a b <-> Reach s a b) /\
+  (forall v x, In v (nkeys s) -> (In x (component s' v) <-> In x (component s v))) /\
+  (forall a b, In a (nkeys s) -> dist s' a b = dist s a b).
+Proof.
+  intros s s' I I' SS. split; [apply (mo_degree s s' I I' SS)|]. split; [apply (mo_edge_size s s' I I' SS)|].
+  split; [apply (mo_nbrs s s' SS)|]. split; [apply (mo_reach s s' SS)|].
+  split; [apply (mo_component s s' I I' SS)|apply (mo_dist s s' I I' SS)].
+Qed.
+Print Assumptions C09_member_order.
